@@ -143,7 +143,32 @@ func (w *World) CredAround(owner string, basicOnly bool) (Cred, string) {
 		}
 		return GoodCred(id)
 	}
-	switch k := w.R.IntN(20); {
+	switch k := w.R.IntN(26); {
+	case k >= 20: // two identities in one request: a verified credential of X plus client_id=Y in the form
+		w.tag("twoid=1")
+		other := drv.Pick(w.R, []string{"web", "web2", "webx", "web2x", "pkjwt"})
+		if other == owner {
+			other = "pkjwt"
+		}
+		switch {
+		case k < 23: // the attack shape: somebody else's valid credential, the owner named in the form
+			c := BasicCred(other)
+			if c.Kind == "basic" {
+				c.Kind = "both"
+			}
+			c.FormID = owner
+			return c, "foreign-cred+owner-in-form"
+		case k < 24:
+			c := BasicCred(owner)
+			if c.Kind == "basic" {
+				c.Kind = "both"
+			}
+			c.FormID = other
+			return c, "owner-cred+foreign-in-form"
+		case k < 25:
+			return Cred{Kind: "assert", ID: "pkjwt", Sec: "good", FormID: owner}, "assertion+owner-in-form"
+		}
+		return Cred{Kind: "assert", ID: drv.Pick(w.R, []string{"pkjwt", "web"}), Sec: drv.Pick(w.R, []string{"wrong-key", "wrong-aud", "good"}), FormID: owner}, "assertion-any+owner-in-form"
 	case k < 10:
 		return good(owner), "owner"
 	case k < 14:
@@ -151,11 +176,11 @@ func (w *World) CredAround(owner string, basicOnly bool) (Cred, string) {
 	case k < 16:
 		return GoodCred(drv.Pick(w.R, []string{"native", "spa"})), "public"
 	case k < 17:
-		return Cred{"basic", owner, "wrong-secret"}, "badsecret"
+		return Cred{Kind: "basic", ID: owner, Sec: "wrong-secret"}, "badsecret"
 	case k < 18:
-		return Cred{"post", owner, "wrong-secret"}, "badsecret-post"
+		return Cred{Kind: "post", ID: owner, Sec: "wrong-secret"}, "badsecret-post"
 	case k < 19:
-		return Cred{"basic", "nosuch", "x"}, "unknown-client"
+		return Cred{Kind: "basic", ID: "nosuch", Sec: "x"}, "unknown-client"
 	}
 	return Cred{}, "none"
 }
@@ -276,16 +301,6 @@ func (w *World) ConfusedExchange(r opfix.Router) bool {
 	return true
 }
 
-// ExchangeCred keeps token-exchange requests of public clients (auth method none) out of the
-// generated inputs where their treatment is C05's subject (and changed by C05's fix patches):
-// none on the Legacy router, client_id only (always invalid_client) on the Provider router.
-func ExchangeCred(r opfix.Router, c Cred) Cred {
-	k := ClientByID(c.ID)
-	if k == nil || k.Auth != "AMNone" {
-		return c
-	}
-	if r == opfix.Legacy {
-		return BasicCred("web")
-	}
-	return Cred{"post", c.ID, ""}
-}
+// ExchangeCred is the identity since the model follows /repo HEAD (Legacy token exchange refuses
+// public clients, fix Fxx-C05-3); kept so that callers read the same.
+func ExchangeCred(r opfix.Router, c Cred) Cred { return c }
